@@ -279,3 +279,50 @@ Definition sub_case_ok (c : sub_case) : bool :=
   | Ok h, [] => option_eqb cid_eqb (sc_latest0 c) (Some h)
   | _, _ => true
   end.
+
+(* ---- histories on ONE Syncer / ONE Subscriber ---- *)
+
+(* several head queries through the same ipnisync Syncer: GetHead keeps no state, so
+   every step must be judged as if it were the first *)
+Record gethist_case := GetHeadHist { gh_expected : option N; gh_steps : list (option whead * obs cid) }.
+Definition gethist_case_ok (c : gethist_case) : bool :=
+  forallb (fun s => gethead_case_ok (GetHeadCase (gh_expected c) (fst s) (snd s))) (gh_steps c).
+
+(* several SyncAdChain calls on the same Subscriber (one handler, one cached Syncer, one
+   store): latest-sync is threaded through; blocks fetched by earlier steps are local *)
+Record sub_step := SubStep {
+  ss_resp : option whead;
+  ss_sync : list cid * bool;
+  ss_obs : obs cid;
+  ss_heads : N;
+  ss_blocks : list cid;
+  ss_latest : option cid
+}.
+Record subhist_case := SubHist {
+  hh_id : option N; hh_addr_ids : list (option N); hh_latest0 : option cid; hh_steps : list sub_step
+}.
+
+Definition mem_cid (c : cid) (l : list cid) : bool := existsb (cid_eqb c) l.
+
+Fixpoint subhist_ok (id : option N) (addrs : list (option N)) (latest : option cid) (have : list cid)
+         (steps : list sub_step) : bool :=
+  match steps with
+  | [] => true
+  | s :: rest =>
+    let '(r, st) :=
+      sync_ad_chain Sym.verify Sym.peer_id Sym.peerid_eqb (fun _ _ => ss_sync s)
+                    (AddrInfo id addrs) (option_map sym_head (ss_resp s)) (SubState latest []) in
+    agrees cid_eqb false r (ss_obs s) &&
+    (count_heads (st_reqs st) =? ss_heads s) &&
+    list_eqb cid_eqb (blocks_of (st_reqs st)) (ss_blocks s) &&
+    option_eqb cid_eqb (st_latest st) (ss_latest s) &&
+    match r, ss_blocks s with
+    | Ok h, b :: _ => cid_eqb h b || mem_cid h have
+    | Ok h, [] => option_eqb cid_eqb latest (Some h) || mem_cid h have
+    | _, _ => true
+    end &&
+    subhist_ok id addrs (st_latest st) (have ++ ss_blocks s) rest
+  end.
+
+Definition subhist_case_ok (c : subhist_case) : bool :=
+  subhist_ok (hh_id c) (hh_addr_ids c) (hh_latest0 c) [] (hh_steps c).
